@@ -20,6 +20,7 @@ type fidelityResult struct {
 	Mismatch     int    `json:"mismatches"`
 	SelfDisagree int    `json:"real_binary_disagreed_with_itself"`
 	Skipped      int    `json:"skipped"`
+	Wording      int    `json:"same_outcome_different_stderr_wording"`
 	First        string `json:"first_mismatch,omitempty"`
 }
 
@@ -199,6 +200,16 @@ func fidelityMain(args []string) {
 				continue
 			}
 			if !so.same(reals[0][i]) {
+				soft := so
+				soft.Stderr = reals[0][i].Stderr
+				if soft.same(reals[0][i]) && len(so.Stderr) > 0 && len(reals[0][i].Stderr) > 0 {
+					// same status, stdout and files, and both explain themselves on
+					// stderr, in different words (which of two offending keys an
+					// error names depends on map iteration order, for example):
+					// wording is no part of any claimed property
+					res.Wording++
+					continue
+				}
 				res.Mismatch++
 				msg := fmt.Sprintf("%s %q: sim code=%d stdout=%s stderr=%s files=%v | real code=%d stdout=%s stderr=%s files=%v", s.Procs[i].Bin, s.Procs[i].Argv,
 					so.Code, show(so.Stdout), show(maskStamp(so.Stderr)), keysOf(so.Files), reals[0][i].Code, show(reals[0][i].Stdout), show(maskStamp(reals[0][i].Stderr)), keysOf(reals[0][i].Files))
